@@ -327,7 +327,7 @@ def least_squares(x, y, func, priors=None, silent=False, **kwargs):
                 loc_priors.append(_construct_prior_obs(prior, pos))
 
                 output.priors[pos] = loc_priors[-1]
-            if max(prior_mask) >= n_parms:
+            if prior_mask and max(prior_mask) >= n_parms:
                 raise ValueError("Prior position out of range.")
         else:
             raise TypeError("Unkown type for `priors`.")
